@@ -97,6 +97,15 @@ Definition valid (c : case) : Prop :=
   | CGetitem _ _ _ _ => True
   end.
 
+(* [valid] as a boolean (C17.Props.C17_validb_valid): no arity bug and, for the cached FileSystemLoader, a history
+   whose edits all change the mtime (everything else is D18); the unmutated allow-list test *)
+Definition validb (c : case) : bool :=
+  match c with
+  | CEngine cfg h => negb (arity_bug cfg) && history_ok cfg h
+  | CAllow cut _ _ _ => Nat.eqb cut 1
+  | CGetitem _ _ _ _ => true
+  end.
+
 (* ---------- sx ---------- *)
 Definition dec_pair (x : sx) : option (bytes * bytes) := match x with L [B a; B b] => Some (a, b) | _ => None end.
 Definition dec_item (x : sx) : option item :=
@@ -174,5 +183,5 @@ Definition entry (x : sx) : sx :=
   | None => sxS "bad-case"
   | Some (c, io) =>
       let m := run_model c in
-      L [ enc_obs m; L (map sxS (holds c m)); L (map sxS (holds c io)); spec_obs c ]
+      L [ enc_obs m; L (map sxS (holds c m)); L (map sxS (holds c io)); spec_obs c; sxBool (validb c) ]
   end.
